@@ -125,6 +125,7 @@ Proof.
     | |- Ok _ <> Fuel => discriminate
     | |- Err _ <> Fuel => discriminate
     | |- Panic <> Fuel => discriminate
+    | |- (match ?t with TIface => _ | _ => _ end) <> Fuel => destruct t
     end.
   all: match goal with |- match map_result ?f ?l with _ => _ end <> Fuel =>
          pose proof (map_result_nf f l) as M; destruct (map_result f l); try discriminate; exfalso; apply M; [intros; apply set_value_nf|reflexivity] end.
